@@ -18,7 +18,12 @@
    the option had when the request was submitted (cx_sretry).
    fx_cancel: false = req0_ctx_cancel_send as pinned (NNI_ASSERT(recv_aio ==
    NULL); with assertions compiled out the receive stays pending); true = the
-   repaired code (the pending receive is completed with NNG_ECANCELED). *)
+   repaired code (the pending receive is completed with NNG_ECANCELED).
+   fx_stash: false = req0_recv_cb as pinned (a matched context stays on its
+   pipe's list and on the retry queue); true = it is taken off both.
+   fx_rdclr: false = req0_ctx_reset as pinned (the readable pollable stays
+   raised when the master context's stashed reply is thrown away); true = it is
+   cleared. *)
 From Coq Require Import List Arith NArith Bool ZArith.
 From NngV Require Import Proto.Common Proto.ReqRepBacktrace.
 Import ListNotations.
@@ -29,7 +34,7 @@ Definition REQ_ID_MAX : N := 4294967295.      (* 0xffffffff *)
 Definition REQ_RESEND_DEFAULT : Z := 60000.   (* NNI_SECOND * 60 *)
 Definition REQ_TICK_DEFAULT : Z := 1000.      (* NNI_SECOND *)
 
-Record rfix := mkFix { fx_clone : bool; fx_cancel : bool }.
+Record rfix := mkFix { fx_clone : bool; fx_cancel : bool; fx_stash : bool; fx_rdclr : bool }.
 
 Record rctx := mkRctx {
   cx_rid : N;                  (* request_id, 0 = none *)
@@ -125,6 +130,8 @@ Definition ctx_reset (fx : rfix) (s : req) (k : N) (c : rctx) : req * rctx * lis
   let s2 := if N.eqb (cx_rid c) 0 then s1 else set_ids s1 (assoc_del (cx_rid c) (rq_ids s1)) (rq_cursor s1) in
   let o1 := match cx_req c with Some m => if retry_on fx c then [Free m] else [] | None => [] end in
   let o2 := match cx_rep c with Some m => [Free m] | None => [] end in
+  let s2 := if fx_rdclr fx && N.eqb k 0 && (match cx_rep c with Some _ => true | None => false end)
+            then set_readable s2 false else s2 in
   (s2, mkRctx 0 (cx_recv c) (cx_send c) None None (cx_retry c) (cx_sretry c) (cx_rtime c) false false, o1 ++ o2).
 
 (* ---- req0_run_send_queue; the third component lists the clones made ---- *)
@@ -376,7 +383,9 @@ Definition req_stepL (fx : rfix) (s : req) (o : pop) : req * list pout * list pm
                        || (match cx_rep c with Some _ => true | None => false end)
                     then (s, [TranRecv p; Free m'], [])
                     else
-                      let s1 := set_ids (set_sendq s (remove_id k (rq_sendq s))) (assoc_del id (rq_ids s)) (rq_cursor s) in
+                      let s0 := if fx_stash fx
+                                then set_plist (set_retryq s (remove_id k (rq_retryq s))) (plist_del k (rq_plist s)) else s in
+                      let s1 := set_ids (set_sendq s0 (remove_id k (rq_sendq s0))) (assoc_del id (rq_ids s0)) (rq_cursor s0) in
                       let o1 := match cx_req c with Some r => if retry_on fx c then [Free r] else [] | None => [] end in
                       match cx_recv c with
                       | Some ra =>
